@@ -8,9 +8,9 @@ META = {
     'rule': 'scope trees (blocks, loops, conditionals, nested functions with parameters, const items before/after use, declarations in any order) over a pool of 4 variable and 2 function names, '
             'plus register/instruction aliases of this and of another language; per program: the partition of identifier occurrences by DefId reported by the real resolver must equal the partition '
             'computed by an independent scope model, programs with a model-detected error (unknown name, local used across a function/const barrier, redefinition) must be rejected; and '
-            'consistently renaming all declared names must not change the compiled output. distinct = hash(program text); non-trivial = >= 2 declarations sharing a name or >= 1 forward reference',
+            'consistently renaming all declared names must not change the compiled output; at file level, ANM scripts/sprites named like register or instruction aliases of the mapfile bind to the declared thing wherever used as a value (checked against the written file and by renaming), and old-ECL files use instruction aliases that exist in both of their languages (subs / timelines), each binding to its own language\'s opcode, an alias of the other language only being an error. distinct = hash(program text); non-trivial = >= 2 declarations sharing a name or >= 1 forward reference',
     'assumptions': ['not generated (undocumented): a local and a const of one name in the same block, a local named like a parameter in the function body block, use of a name in its own initialiser'],
-    'floors': {'renamed_compiles_identical': 10, 'partitions_matched': 150, 'expected_errors_rejected': 40, 'renamings_compared': 40, 'shadowing_programs': 50},
+    'floors': {'file_collision_programs': 20, 'file_alias_collisions': 10, 'two_language_programs': 20, 'renamed_compiles_identical': 10, 'partitions_matched': 150, 'expected_errors_rejected': 40, 'renamings_compared': 40, 'shadowing_programs': 50},
 }
 SIZES = {'quick': 1500, 'thorough': 40000}
 UNIQ_RE = re.compile(r'\b(' + '|'.join(S.VARPOOL + S.FUNCPOOL + S.ALIASES + S.INS_ALIASES) + r')_(\d+)\b')
@@ -66,11 +66,118 @@ def compile_rename_case(ctx, r):
         ctx.count('renamed_both_rejected'); ctx.seen('renamed_reject_reasons', core.norm_msg(core.headline(ra.get('diag', '')))[:60])
     ctx.count('renamings_compared')
 
+def file_collision_case(ctx, r):
+    """File-level names (ANM scripts and sprites) that collide with register / instruction aliases of the mapfile: wherever such a name is
+    used as a value it means the declared thing (it compiles to its index / id), and renaming the declaration and its uses changes nothing."""
+    from .. import layout as L
+    game = r.pick(['th08', 'th10', 'th12', 'th14', 'th17'])
+    mp = '!anmmap\n!gvar_names\n10000 RA\n10001 RB\n10004 FA\n!gvar_types\n10000 $\n10001 $\n10004 %\n!ins_names\n900 doit\n901 dospr\n902 doscr\n!ins_signatures\n900 S\n901 n\n902 N\n'
+    pool = ['RA', 'RB', 'FA', 'doit', 'alpha', 'beta', 'gamma']
+    nscr, nspr = r.randint(1, 3), r.randint(0, 3)
+    names = r.sample(pool, min(len(pool), nscr + nspr))
+    scripts, sprites = names[:nscr], names[nscr:nscr + nspr]
+    spr_text = ', '.join('%s: {x: 0.0, y: 0.0, w: 1.0, h: 1.0}' % nm for nm in sprites)
+    uses = {}       # script -> [(kind, name, expected value)]
+    def body(sc):
+        lines = []; uses[sc] = []
+        for _ in range(r.randint(1, 4)):
+            k = r.wpick([('arg', 3), ('expr', 3), ('typed', 2), ('reg', 1)])
+            nm = r.pick(scripts + sprites)
+            val = scripts.index(nm) if nm in scripts else sprites.index(nm)
+            if k == 'arg': lines.append('doit(%s);' % nm); uses[sc].append((900, val))
+            elif k == 'expr':
+                # a register that is *not* shadowed is the destination; the colliding name is read as a value inside an expression
+                dst = next((x for x in ('RA', 'RB') if x not in scripts + sprites), '$REG[10002]')
+                lines.append('%s = %s + 1;' % (dst, nm)); lines.append('doit(%s);' % dst); uses[sc].append((900, None))
+            elif k == 'typed':
+                if nm in sprites: lines.append('dospr(%s);' % nm); uses[sc].append((901, val))
+                else: lines.append('doscr(%s);' % nm); uses[sc].append((902, val))
+            else: lines.append('doit($REG[10003]);'); uses[sc].append((900, 10003))
+        return '\n'.join(lines)
+    def render(ren):
+        t = 'entry { path: "a.png", has_data: false, img_width: 16, img_height: 16, img_format: 1, sprites: {%s} }\n' % spr_text
+        for sc in scripts: t += 'script %s {\n%s\n}\n' % (sc, bodies[sc])
+        # (instruction names live in their own namespace: `doit(...)` is the instruction even when a script is called doit)
+        for old, new in ren.items(): t = re.sub(r'\b%s\b(?!\s*\()' % old, new, t)
+        return t
+    bodies = {sc: body(sc) for sc in scripts}
+    ren = {nm: 'fresh_%d' % k for k, nm in enumerate(scripts + sprites)}
+    mpath = ctx.write('c10.map', mp)
+    outs = []
+    for tag, text in (('original', render({})), ('renamed', render(ren))):
+        src = ctx.write('c10_%s.txt' % tag, text); out = os.path.join(ctx.dir, 'c10_%s.bin' % tag)
+        if os.path.exists(out): os.unlink(out)
+        c = ctx.cli({'tool': 'anm', 'cmd': 'compile', 'game': game, 'in': src, 'out': out, 'maps': [mpath]})
+        if 'panic' in c or 'abort' in c: ctx.inconcl('compile crash (C04)'); return
+        outs.append((c.get('ok'), ctx.read(out) if c.get('ok') else None, c.get('diag', ''), text))
+    ctx.evaluations += 1
+    replay = {'game': game, 'original': outs[0][3], 'renamed': outs[1][3], 'mapfile': mp}
+    collide = [nm for nm in scripts + sprites if nm in ('RA', 'RB', 'FA', 'doit')]
+    if outs[0][0] != outs[1][0]:
+        ctx.violation('scope:file-names:rename-changes-acceptance', 'original %s, renamed %s: %s' % ('compiles' if outs[0][0] else 'fails', 'compiles' if outs[1][0] else 'fails',
+                      core.norm_msg(core.headline(outs[0][2] or outs[1][2]))[:200]), replay); return
+    if not outs[0][0]:
+        ctx.count('file_collision_rejected'); ctx.seen('file_collision_reject_reasons', core.norm_msg(core.headline(outs[0][2]))[:70]); return
+    if outs[0][1] != outs[1][1]:
+        ctx.violation('scope:file-names:rename-changes-output:%s' % ('alias-collision' if collide else 'no-collision'),
+                      'renaming the declared scripts/sprites %s to fresh names changes the compiled file' % (scripts + sprites), replay); return
+    # direct oracle: the value compiled for a name is the index / id of the declared thing
+    ents = L.parse_anm(outs[0][1], game)
+    fscripts = [sc for e in ents for sc in e['scripts']]
+    for sc, fs in zip(scripts, fscripts):
+        ins = [i for i in fs['instrs'] if i.opcode in (900, 901, 902)]
+        for (op, want), i in zip(uses[sc], ins):
+            got = int.from_bytes(i.blob[:4], 'little', signed=True)
+            if want is not None and (i.opcode != op or got != want):
+                ctx.violation('scope:file-names:wrong-binding', 'in script %s an argument compiled to ins_%d(%d), expected ins_%d(%d) (the declared script/sprite)' % (sc, i.opcode, got, op, want), replay); return
+    ctx.count('file_collision_programs'); ctx.count('renamings_compared')
+    if collide: ctx.count('file_alias_collisions'); ctx.fp('filecoll', outs[0][3])
+
+def two_language_case(ctx, r):
+    """Old ECL: subs and timelines are two languages with their own alias tables; a name may be an alias in both."""
+    from .. import layout as L
+    game = r.pick(['th06', 'th07', 'th08', 'th09', 'th095'])
+    shared, only_sub, only_tl = 'shared_name', 'sub_only', 'tl_only'
+    mp = ('!eclmap\n!ins_names\n900 %s\n901 %s\n!ins_signatures\n900 S\n901 S\n!timeline_ins_names\n910 %s\n911 %s\n!timeline_ins_signatures\n910 S\n911 S\n'
+          '!gvar_names\n%d GV\n' % (shared, only_sub, shared, only_tl, -10001 if game == 'th06' else 10000))
+    bad = r.chance(0.3)
+    sub_lines, tl_lines, want_sub, want_tl = [], [], [], []
+    for _ in range(r.randint(1, 4)):
+        nm = r.pick([shared, only_sub]); sub_lines.append('%s(%d);' % (nm, r.randint(0, 9))); want_sub.append(900 if nm == shared else 901)
+    for _ in range(r.randint(1, 4)):
+        nm = r.pick([shared, only_tl]); tl_lines.append('%s(%d);' % (nm, r.randint(0, 9))); want_tl.append(910 if nm == shared else 911)
+    if bad:
+        if r.chance(0.5): sub_lines.append('%s(1);' % only_tl)
+        else: tl_lines.append('%s(1);' % only_sub)
+    order = r.chance(0.5)
+    sub_t = 'void s0() {\n%s\n}\n' % '\n'.join(sub_lines); tl_t = 'script timeline0 {\n%s\n}\n' % '\n'.join(tl_lines)
+    text = (sub_t + tl_t) if order else (tl_t + sub_t)
+    src = ctx.write('c10e.txt', text); out = os.path.join(ctx.dir, 'c10e.bin'); mpath = ctx.write('c10e.map', mp)
+    if os.path.exists(out): os.unlink(out)
+    c = ctx.cli({'tool': 'ecl', 'cmd': 'compile', 'game': game, 'in': src, 'out': out, 'maps': [mpath]})
+    ctx.evaluations += 1
+    replay = {'game': game, 'text': text, 'mapfile': mp}
+    if 'panic' in c or 'abort' in c: ctx.inconcl('compile crash (C04)'); return
+    if bad:
+        if c.get('ok'): ctx.violation('scope:two-languages:accepts-alias-of-other-language', 'an instruction alias that exists only in the other language was accepted', replay)
+        elif core.has_error_diag(c.get('diag', '')): ctx.count('expected_errors_rejected'); ctx.seen('error_classes', 'alias-of-other-language')
+        return
+    if not c.get('ok'):
+        ctx.violation('scope:two-languages:rejects-valid:%s' % core.norm_msg(core.headline(c.get('diag', '')))[:60], c.get('diag', '')[:300], replay); return
+    p = L.parse_ecl06(ctx.read(out), game)
+    got_sub = [i.opcode for i in p['subs'][0]['instrs']]; got_tl = [i.opcode for i in p['timelines'][0]['instrs']]
+    if got_sub != want_sub or got_tl != want_tl:
+        ctx.violation('scope:two-languages:wrong-binding', 'sub opcodes %s (expected %s), timeline opcodes %s (expected %s)' % (got_sub, want_sub, got_tl, want_tl), replay); return
+    ctx.count('two_language_programs'); ctx.fp('twolang', text)
+
 def run_shard(ctx):
     r = ctx.rng
     n = SIZES[ctx.tier] // ctx.nshards + 1
     done = 0
     while done < n:
+        k = r.random()
+        if k < 0.10: file_collision_case(ctx, r); done += 1; continue
+        if k < 0.16: two_language_case(ctx, r); done += 1; continue
         if r.chance(0.15):
             compile_rename_case(ctx, r); done += 1; continue
         want_error = r.chance(0.3)
